@@ -1169,12 +1169,48 @@ func (g *vGen) scenarioAffinityRefresh() {
 		if r.Intn(3) == 0 {
 			add(func() string { return fmt.Sprintf("pool ccs addrs=%d", 2+r.Intn(2)) })
 		}
+		// BIND calls in flight across the swap (one lands on every channel, the refreshing one included):
+		// they complete afterwards and their keys must be looked up on the replacement
+		inflight := []int{}
+		if round == rounds-1 && r.Intn(2) == 0 {
+			for j := 0; j < 4; j++ {
+				add(func() string {
+					if cur() < 0 || len(h.gb.refreshingScRefs) == 0 {
+						return ""
+					}
+					id := call()
+					inflight = append(inflight, id)
+					return fmt.Sprintf("pool pick call=%d picker=%d m=bind ctx=gcp dl=none req=/", id, cur())
+				})
+			}
+		}
 		add(func() string {
 			for sc := range h.gb.refreshingScRefs {
 				return fmt.Sprintf("pool scs sc=%d st=READY", sc.(*vSubConn).id)
 			}
 			return ""
 		})
+		for j := 0; j < 4; j++ {
+			jj := j
+			add(func() string {
+				if jj >= len(inflight) {
+					return ""
+				}
+				if _, ok := h.calls[inflight[jj]]; !ok {
+					return ""
+				}
+				return fmt.Sprintf("pool done call=%d err=nil reply=late%d/", inflight[jj], jj)
+			})
+		}
+		for j := 0; j < 4; j++ {
+			jj := j
+			add(func() string {
+				if jj >= len(inflight) || cur() < 0 {
+					return ""
+				}
+				return fmt.Sprintf("pool pick call=%d picker=%d m=bound ctx=gcp dl=none req=late%d/", call(), cur(), jj)
+			})
+		}
 	}
 	for i := 0; i < nkeys; i++ {
 		k := fmt.Sprintf("k%d", 1+i)
